@@ -100,6 +100,17 @@ def lacks_output(ev):
     return any(not need.get(d, set()) <= set(p) for _, d, p in ev.get("edges", ()))
 
 
+def rejected_once(ctx, sub, module, cfg, events, env=None):
+    """One TLC run: is this single (corrupted) execution rejected ?  (binding self-test)"""
+    p = os.path.join(ctx.scratch, "selftest.ndjson")
+    with open(p, "w") as f:
+        for ev in events:
+            f.write(json.dumps(ev, separators=(",", ":")) + "\n")
+    v, r = tracecheck.validate_file(ctx.spec(sub), module, cfg, p, env=env)
+    ctx.extra["trace_tlc_runs"] = ctx.extra.get("trace_tlc_runs", 0) + 1
+    return not v.accepted
+
+
 def run(ctx):
     d = ctx.stage("Comm")
     exe = ctx.harness("bcast_replay", ["harness/bcast/bcast_replay.c"])
@@ -198,10 +209,8 @@ def run(ctx):
             if e[2]:
                 e[2] = e[2][1:]
                 break
-        n0 = ctx.traces
-        if not ctx.validate("Comm", "BcastTrace", "BcastTrace.cfg", [[ev]]):
+        if not rejected_once(ctx, "Comm", "BcastTrace", "BcastTrace.cfg", [ev]):
             raise tlc.TLCError("binding self-test: a line with a dropped output was accepted by BcastTrace")
-        ctx.traces = n0
     ctx.assume("the relay rebuilds the root's description (parsec_gather_collective_pattern) from the same destination sets")
     ctx.assume("payload of an activation = outputs in the sender's outgoing_mask whose rank_bits contain the peer (remote_dep_mpi_pack_dep)")
 
